@@ -3,6 +3,7 @@ package fuzzsim
 import (
 	"encoding/base64"
 	"sort"
+	"strconv"
 	"strings"
 
 	"github.com/youzan/ZanRedisDB/common"
@@ -113,7 +114,7 @@ func mkBadValues(rare bool) []bad {
 var badJSON = []bad{{"{", "invalid"}, {"", "empty"}, {"nul", "invalid"}, {"[1,", "invalid"}, {`{"a":}`, "invalid"}, {"1e999", "bignumber"}, {"\xff", "invalid"},
 	{rep("[", 100000), "deep"}, {rep("[", 20000) + rep("]", 20000), "deep"}, {rep(`{"a":`, 20000) + "1" + rep("}", 20000), "deep"},
 	{`"` + rep("s", 1<<20) + `"`, "big"}, {"{}{}", "invalid"}, {`{"a":1}garbage`, "invalid"}, {"-", "invalid"}, {`"\ud800"`, "invalid"}}
-var badPaths = []bad{{"a.b.c.d", "deep"}, {"arr.-1", "negindex"}, {"arr.99999999", "hugeindex"}, {"arr.4294967296", "hugeindex"}, {"arr.#", "hash"},
+var badPaths = []bad{{"a.b.c.d", "deep"}, {"arr.-1", "negindex"}, {"arr.20000000", "hugeindex"}, {"arr.4294967296", "hugeindex"}, {"arr.#", "hash"},
 	{"obj.*", "wildcard"}, {"..", "dots"}, {".", "dots"}, {"a..b", "dots"}, {"#", "hash"}, {"@reverse", "modifier"}, {"arr.#(", "query"}, {"\x00", "binary"},
 	{rep("a.", 20000) + "a", "long"}, {"-1", "negindex"}, {"arr.18446744073709551616", "hugeindex"}, {"arr.1000000", "hugeindex"}, {"arr.:1", "colon"},
 	{"obj.x.y", "deep"}, {"a.0", "indexonscalar"}, {"arr.-", "append"}, {"*", "wildcard"}, {"?", "wildcard"}, {"arr.#.x", "hash"}, {"|", "pipe"}}
@@ -213,7 +214,7 @@ func (g *gen) mutateOnce(pas *[]arg, tier string) string {
 	t := g.t
 	as := *pas
 	pickIdx := func(xs []int) int { return xs[t.Choose(len(xs))] }
-	op := t.Weighted([]int{22, 14, 10, 6, 6, 6, 5, 4, 5, 3, 6, 3, 4, 6})
+	op := t.Weighted([]int{22, 14, 10, 6, 6, 6, 5, 4, 5, 3, 6, 3, 4, 6, 2})
 	switch op {
 	case 0: // bad number
 		if xs := idxOf(as, func(a arg) bool { return isNumeric(a.k) }); len(xs) > 0 {
@@ -387,6 +388,39 @@ func (g *gen) mutateOnce(pas *[]arg, tier string) string {
 			k := as[i].k
 			as[i].v = b.v
 			return b.tag + "-" + kindName[k]
+		}
+	case 14: // very many arguments (around MAX_BATCH_NUM)
+		if len(as) > 2 {
+			i := 2 + t.Choose(len(as)-2)
+			width := 1
+			if len(as)-i >= 2 && t.Choose(2) == 0 {
+				width = 2 // repeat a pair
+			}
+			n := []int{common.MAX_BATCH_NUM - 1, common.MAX_BATCH_NUM, common.MAX_BATCH_NUM + 1, 2 * common.MAX_BATCH_NUM, 10*common.MAX_BATCH_NUM + 1}[t.Choose(5)]
+			grp := append([]arg(nil), as[i:i+width]...)
+			gsz := 0
+			for _, a := range grp {
+				gsz += len(a.v) + 8
+			}
+			if n*gsz > 4<<20 {
+				// keep the request below a few MiB
+				n = (4 << 20) / gsz
+				if n < 2 {
+					n = 2
+				}
+			}
+			out := append([]arg(nil), as[:i]...)
+			for r := 0; r < n; r++ {
+				for _, a := range grp {
+					if a.k == kField || a.k == kVal {
+						a.v = a.v + "-" + strconv.Itoa(r)
+					}
+					out = append(out, a)
+				}
+			}
+			out = append(out, as[i+width:]...)
+			*pas = out
+			return "many-" + kindName[grp[0].k]
 		}
 	}
 	// not applicable: junk in a random position (or an extra argument for bare names)
